@@ -39,7 +39,8 @@ def main(ctx):
         cons = list(k.pop('constraints', []))
         acs = []
         workers = k.pop('workers', None)
-        if k.pop('emit', False):
+        emit = k.pop('emit', False)
+        if emit:
             cons.append('SEmitInit')
             acs.append('SEmitEdge')
             workers = 1
@@ -48,7 +49,8 @@ def main(ctx):
                            init='SInit', next_='SNext', constraints=cons, action_constraints=acs)
         return tlc.run('Shared', cfg, workers=workers, timeout=1800, heap='4g',
                        simulate=k.get('simulate'), depth=k.get('depth'),
-                       seed=ctx.seed if k.get('simulate') else None)
+                       seed=ctx.seed if k.get('simulate') else None,
+                       budget_ok=bool(k.get('simulate')) or not emit)
 
     with ThreadPoolExecutor(3) as ex:
         fs = ex.submit(run, 'shared-small', small, emit=True)
